@@ -24,7 +24,7 @@ ASSUMPTIONS = ["order of application: overrides (a later override of the same it
 ANCHORS = ["_config_parser.py:ConfigParser._init_config_parser", "potable/__init__.py:_create_override_tuple", "potable/__init__.py:_make_config_parser",
            "_query_actions.py:_list_items", "_query_actions.py:action_item_value", "_config_parser.py:_RawConfigParser.optionxform"]
 MIN_NONTRIVIAL = {"quick": 60, "thorough": 700}
-MIN_COUNTERS = {"differentials": 150, "listings_checked": 30, "invalid_ops_checked": 15}
+MIN_COUNTERS = {"differentials": 150, "listings_checked": 15, "invalid_ops_checked": 15}
 TECHNIQUE = "runtime monitoring: CLI/API edit operations vs reference INI editor byte differential; listing multiset comparison"
 LEVEL_TEXT = ("Exploration: the real CLI and ConfigParser(overrides=, additional=) are run with seeded operation sequences; the output must be byte-identical "
               "to tabulating the file edited by an independent reference editor (or both must be configuration errors); invalid operations must be "
@@ -209,6 +209,12 @@ def gen_cases(rng, tier):
               sp.append(x)
       case["combined"] = {"S": rng.sample(sp, rng.randint(1, len(sp))), "exclude": rng.random() < 0.5, "tseed": rng.randrange(1 << 30)}
       case["listing"] = False
+    if route in ("main", "api") and i % 5 == 4:
+      # feature interaction: operations that address [Variables] itself, and an item written as ${VAR} that is
+      # overridden with exactly the text it currently expands to ("frozen") while VAR is changed or removed
+      case["freeze"] = {"tseed": rng.randrange(1 << 30)}
+      case["listing"] = False
+      case.pop("combined", None)
     cases.append(case)
   return cases
 
@@ -331,37 +337,136 @@ def run_combined(case, ctx, items):
   # placeholders only in items no operation touches (an override replaces the whole value anyway)
   touched = set((o["section"], norm(o["key"])) for o in ops)
   templ = [(s_, [(k, (v if (s_, norm(k)) not in touched else dict(dict(subst)[s_])[k])) for k, v in its]) for s_, its in templ]
-  t_templ = c15.text_with_vars(templ, variables + unused, rng)
-  e1, err = reference_edit(subst, ops, drop_empty=True)
-  e2, _ = reference_edit(subst, ops, drop_empty=False)
+  at_end = rng.random() < 0.4
+  t_templ = c15.text_with_vars(templ, variables + unused, rng, at_end=at_end)
+  # the reference is the TEMPLATED file edited by hand (an operation may touch an item that a ${SECTION:KEY}
+  # placeholder elsewhere refers to: the hand-edited file then follows the new value / fails to substitute, too)
+  e1, err = reference_edit(templ, ops, drop_empty=True)
+  e2, _ = reference_edit(templ, ops, drop_empty=False)
   flag = "--exclude-species" if comb["exclude"] else "--include-species"
   got = outcome(routes.potable_main(["@IN", "@OUT"] + cli_args(ops) + [flag] + list(comb["S"]), t_templ))
   ctx.count("differentials")
   ctx.count("combined_invocations")
+  mech = "section_name_with_colon_on_cli" if any(":" in o["section"] for o in ops) else "edit"
   if err is not None:
     if got[0] != "config_error":
-      ctx.violation("invalid_op_not_rejected", "%s -> %s via combined invocation" % (err, got[0]), what="invalid_op_not_rejected", mech="edit")
+      ctx.violation("invalid_op_not_rejected", "%s -> %s via combined invocation" % (err, got[0]), what="invalid_op_not_rejected", mech=mech)
     ctx.nontrivial(True)
     return
   ok = False
   wants = []
   for e in (e1, e2):
-    w = outcome(routes.potable_main(["@IN", "@OUT"], emit.items_text(filter_items(e, comb["S"], comb["exclude"]))))
+    w = outcome(routes.potable_main(["@IN", "@OUT"], c15.text_with_vars(filter_items(e, comb["S"], comb["exclude"]), variables + unused, rng, at_end=at_end)))
+    wants.append(w)
+    if got[0] == w[0] and (got[0] != "ok" or same_output(m["target"], got[1], w[1])):
+      ok = True
+  if got[0] == "internal" and any(w[0] == "internal" for w in wants):
+    ok = True
+  if not ok and got[0] != "ok":
+    # domain: the edited file must be a valid model BEFORE pruning (an excluded entry whose placeholder lost its target is
+    # a malformed file, not a model: potable reads every entry before it filters, the hand-pruned copy no longer has it)
+    unpruned = outcome(routes.potable_main(["@IN", "@OUT"], c15.text_with_vars(e1, variables + unused, rng, at_end=at_end)))
+    if unpruned[0] != "ok":
+      ctx.count("combined_edited_file_invalid_before_pruning")
+      return
+  if not ok:
+    ctx.violation("edit_differs" if mech != "edit" else "combined_differs", "ops %s + %s %s on a templated file: real -> %s (%s); templated file edited and pruned by hand -> %s" % (
+      [(o["op"], o["section"], o["key"]) for o in ops], flag, comb["S"], got[0], str(got[1])[:150] if got[0] != "ok" else "%d bytes" % len(got[1]),
+      [(w[0], str(w[1])[:100] if w[0] != "ok" else "%d bytes" % len(w[1])) for w in wants]), what=("edit_differs" if mech != "edit" else "combined_differs"), mech=mech)
+    return
+  ctx.nontrivial(True)
+
+
+def run_freeze(case, ctx, items):
+  """Operations on a templated file, decided against the same templated file edited by hand (as text)."""
+  import random as _r
+  from checks import c15
+  m, route = case["model"], case["route"]
+  rng = _r.Random(case["freeze"]["tseed"])
+  ctx.cls("freeze:override_with_current_expansion+variable_edit")
+  templ, subst, variables, unused, used = c15.template(items, rng)
+  sub = {(s_, k): v for s_, its in subst for k, v in its}
+  allvars = list(variables) + list(unused)
+  if not allvars:
+    ctx.count("freeze_without_variables")
+    return
+  full = [("Variables", [(n_, v_) for n_, v_ in allvars])] + [(s_, list(its)) for s_, its in templ]
+  if rng.random() < 0.4:
+    full = full[1:] + full[:1]
+  ops = []
+  templated = [(s_, k, tv) for s_, its in templ for k, tv in its if "${" in tv and not s_.startswith("Table-Form")]
+  rng.shuffle(templated)
+  for s_, k, tv in templated[:rng.choice([0, 1, 1, 2])]:
+    names = re.findall(r"\$\{([^}:]+)\}", tv)
+    ops.append({"op": "override", "section": s_, "key": k, "value": sub[(s_, k)]})      # freeze: same text as the expansion
+    ctx.cls("frozen_item")
+    if names:
+      nm = rng.choice(names)
+      old = dict(allvars).get(nm, "1.0")
+      if rng.random() < 0.7:
+        newv = spec.fnum(round(float(old) * 1.5 + 0.25, 4)) if NUMRE.fullmatch(old.strip()) else old
+        ops.append({"op": "override", "section": "Variables", "key": nm, "value": newv})
+        ctx.cls("variable_overridden_after_freeze")
+      else:
+        ops.append({"op": "remove", "section": "Variables", "key": nm})
+        ctx.cls("variable_removed_after_freeze")
+  # operations on variables alone (the items that use them must follow)
+  for n_, v_ in rng.sample(allvars, min(len(allvars), rng.choice([0, 1, 1, 2]))):
+    if any(o["section"] == "Variables" and o["key"] == n_ for o in ops):
+      continue
+    if NUMRE.fullmatch(v_.strip()) and rng.random() < 0.8:
+      ops.append({"op": "override", "section": "Variables", "key": n_, "value": spec.fnum(round(float(v_) * 0.5 + 1.0, 4))})
+      ctx.cls("variable_overridden")
+    elif (n_, v_) in unused:
+      ops.append({"op": "remove", "section": "Variables", "key": n_})
+      ctx.cls("unused_variable_removed")
+  if rng.random() < 0.3:
+    ops.append({"op": "add", "section": "Variables", "key": "fresh_%d" % rng.randint(0, 99), "value": "2.5"})
+    ctx.cls("variable_added")
+  if not ops:
+    ctx.count("freeze_without_ops")
+    return
+  rng.shuffle(ops)
+  text = emit.items_text(full)
+  e1, err = reference_edit(full, ops, drop_empty=True)
+  e2, _ = reference_edit(full, ops, drop_empty=False)
+  if route == "api":
+    got = api_outcome(text, ops)
+  else:
+    got = outcome(routes.potable_main(["@IN", "@OUT"] + cli_args(ops), text))
+  ctx.count("differentials")
+  ctx.count("freeze_invocations")
+  if err is not None:
+    if got[0] != "config_error":
+      ctx.violation("invalid_op_not_rejected", "%s -> %s via %s" % (err, got[0], route), what="invalid_op_not_rejected", mech="edit")
+    return
+  wants = []
+  ok = False
+  for e in (e1, e2):
+    t2 = emit.items_text(e)
+    w = api_outcome(t2) if route == "api" else outcome(routes.potable_main(["@IN", "@OUT"], t2))
     wants.append(w)
     if got[0] == w[0] and (got[0] != "ok" or same_output(m["target"], got[1], w[1])):
       ok = True
   if got[0] == "internal" and any(w[0] == "internal" for w in wants):
     ok = True
   if not ok:
-    ctx.violation("combined_differs", "ops %s + %s %s on a templated file: real -> %s (%s); file substituted, edited and pruned by hand -> %s" % (
-      [(o["op"], o["section"], o["key"]) for o in ops], flag, comb["S"], got[0], str(got[1])[:150] if got[0] != "ok" else "%d bytes" % len(got[1]),
-      [(w[0], str(w[1])[:100] if w[0] != "ok" else "%d bytes" % len(w[1])) for w in wants]), what="combined_differs", mech="edit")
+    ctx.violation("edit_differs", "ops %s on a templated file via %s: real -> %s (%s); templated file edited by hand -> %s" % (
+      [(o["op"], o["section"], o["key"], o.get("value")) for o in ops], route, got[0], str(got[1])[:150] if got[0] != "ok" else "%d bytes" % len(got[1]),
+      [(w[0], str(w[1])[:100] if w[0] != "ok" else "%d bytes" % len(w[1])) for w in wants]), what="edit_differs", mech="variables")
     return
+  ctx.cls("agree:" + got[0])
   ctx.nontrivial(True)
+
+
+NUMRE = re.compile(r"[-+]?(\d+\.?\d*|\.\d+)([eE][-+]?\d+)?")
 
 
 def run_case(case, ctx):
   m, ops, route = case["model"], case["ops"], case["route"]
+  if case.get("freeze"):
+    ctx.cls("route:" + route)
+    return run_freeze(case, ctx, emit.model_items(m))
   ctx.cls("route:" + route)
   ctx.cls("target:" + m["target"])
   ctx.cls("nops:%d" % len(ops))
